@@ -862,6 +862,31 @@ func (s *Sess) execRange(x *ssa.Range, st *State) {
 	st.top = s.define("top", "Int", fmt.Sprintf("(+ %s 1)", st.top))
 	key := "C:$iterpos"
 	s.setRegion(st, key, "(Array Int Int)", fmt.Sprintf("(store %s %s 0)", s.region(st, key, "(Array Int Int)"), r.t))
+	if m, ok := x.X.Type().Underlying().(*types.Map); ok {
+		// Map iteration visits every key exactly once in an ARBITRARY order: an uninterpreted
+		// enumeration keys[0..n) of the key set at the time the range starts.
+		ks := s.tc.sortOf(m.Key())
+		mv := s.val(x.X)
+		s.nfresh++
+		id := s.nfresh
+		keysF := s.uf(fmt.Sprintf("mapiter.key!%d", id), []string{"Int"}, ks)
+		posF := s.uf(fmt.Sprintf("mapiter.pos!%d", id), []string{ks}, "Int")
+		n := s.fresh("mapiter.n", "Int")
+		H := s.region(st, mapHasRegion(m), s.mapHasSort(m))
+		has := func(k string) string {
+			return fmt.Sprintf("(and (distinct %s 0) (select (select %s %s) %s))", mv.t, H, mv.t, k)
+		}
+		s.assume(fmt.Sprintf("(<= 0 %s)", n))
+		s.assume(fmt.Sprintf("(forall ((i Int)) (! (=> (and (<= 0 i) (< i %s)) (and %s (= (%s (%s i)) i))) :pattern ((%s i))))", n, has(fmt.Sprintf("(%s i)", keysF)), posF, keysF, keysF))
+		s.assume(fmt.Sprintf("(forall ((k %s)) (! (=> %s (and (<= 0 (%s k)) (< (%s k) %s) (= (%s (%s k)) k))) :pattern ((%s k))))", ks, has("k"), posF, posF, n, keysF, posF, posF))
+		s.mapIters[x] = &mapIter{keys: keysF, pos: posF, n: n, m: m, mapVal: mv.t}
+	}
+}
+
+type mapIter struct {
+	keys, pos, n string
+	m            *types.Map
+	mapVal       string
 }
 
 func (s *Sess) execNext(x *ssa.Next, st *State) {
@@ -882,14 +907,18 @@ func (s *Sess) execNext(x *ssa.Next, st *State) {
 		return
 	}
 	m := rng.X.Type().Underlying().(*types.Map)
-	mv := s.val(rng.X)
-	ok := s.fresh("nok", "Bool")
-	k := s.fresh("mk", s.tc.sortOf(m.Key()))
-	has, val := s.mapGet(st, m, mv.t, k)
+	mi := s.mapIters[rng]
+	if mi == nil {
+		s.unsupp("map iterator without range")
+		s.havocVal(x, st)
+		return
+	}
+	ok := s.define("nok", "Bool", fmt.Sprintf("(and (<= 0 %s) (< %s %s))", pos, pos, mi.n))
+	k := s.define("mk", s.tc.sortOf(m.Key()), fmt.Sprintf("(%s %s)", mi.keys, pos))
+	_, val := s.mapGet(st, m, mi.mapVal, k)
 	v := s.define("mval", s.tc.sortOf(m.Elem()), val)
-	s.assume(implies(ok, has))
 	s.assumeAt(st, and(s.wf(k, m.Key(), st.top), s.wf(v, m.Elem(), st.top)))
-	// the position counts visited entries; order of keys is arbitrary (havoc)
+	s.assumeAt(st, fmt.Sprintf("(<= 0 %s)", pos))
 	s.setRegion(st, key, "(Array Int Int)", fmt.Sprintf("(store %s %s (ite %s (+ %s 1) %s))", H, it.t, ok, pos, pos))
 	s.env[x] = Val{parts: []Val{{t: ok, typ: types.Typ[types.Bool]}, {t: k, typ: m.Key()}, {t: v, typ: m.Elem()}}, typ: x.Type()}
 }
